@@ -574,7 +574,15 @@ func run(in In, n int) (out Out) {
 				s.Evs[i].DC = uint32(curDC)
 			}
 		}
-		curDC -= int64(func() int { n := 0; for _, e := range s.Evs { if e.T == "b" { n++ } }; return n }())
+		curDC -= int64(func() int {
+			n := 0
+			for _, e := range s.Evs {
+				if e.T == "b" {
+					n++
+				}
+			}
+			return n
+		}())
 		num := synced + s.Skip + 1
 		blk := aggsync.Block{Num: num, Hash: common.BigToHash(new(big.Int).SetUint64(num + 1000))}
 		for i, e := range s.Evs {
